@@ -135,7 +135,7 @@ class Dataflow:
        init: state at entry;  stmt(state, pt, item) -> state;  edge(state, src, tgt, label) -> state or None
        (None = infeasible);  join(a, b) -> state.  States must be hashable/comparable."""
 
-    def __init__(self, body, init, stmt, edge=None, join=None, entry_block=0, region=None):
+    def __init__(self, body, init, stmt, edge=None, join=None, entry_block=0, region=None, stop_blocks=None):
         self.body = body
         self.init = init
         self.stmt = stmt
@@ -143,6 +143,7 @@ class Dataflow:
         self.join = join
         self.entry = entry_block
         self.region = region
+        self.stop_blocks = stop_blocks or ()
         self.IN = {}
         self.OUT = {}
         self.at = {}
@@ -165,6 +166,8 @@ class Dataflow:
                     break
             self.OUT[b] = st
             if st is None:
+                continue
+            if b in self.stop_blocks and b != self.entry:
                 continue
             for tgt, lab in body.succ_edges(b):
                 if self.region is not None and tgt not in self.region:
